@@ -553,7 +553,7 @@ func genGcsMore(g *core.Gen) {
 		// the quick tier covers that boundary of the N prefix on the deserialising side (fromn-nprefix)
 		nb = append(nb, 65535, 65536, 65537)
 	}
-	for _, pre := range []string{"fc", "fdfd00", "fdfe00", "fdffff", "fe00000100", "fe01000100", "fdfc00", "fe00ffff"} {
+	for _, pre := range []string{"fc", "fdfd00", "fdfe00", "fdffff", "fe00000100", "fe01000100", "fdfc00"} {
 		rec(g, "fromn-nprefix", true, fmt.Sprintf("C20 fromn 19 784931 %s %s%s %s", keyTok(r), pre,
 			hex.EncodeToString(r.Bytes(1+r.Intn(12))), itemsTok(randItems(r, 3, 6))))
 	}
